@@ -11,7 +11,7 @@ objs={'maxmin':obj.MaximizeSmallestSum,'minmax':obj.MinimizeLargestSum,'diff':ob
 res=Counter()
 for t in range(N):
     n=rng.randint(1,9); k=rng.randint(1,5)
-    items=[rng.randint(0,rng.choice([3,10,100,1000])) for _ in range(n)]
+    items=[rng.randint(1,rng.choice([3,10,100,1000])) for _ in range(n)]
     if rng.random()<.2: items=[rng.choice([2,3]) for _ in range(n)]
     for on,o in objs.items():
         want=opt(items,k,on)
